@@ -22,6 +22,7 @@ type GroupSpec struct {
 	Pkg     string     `json:"pkg"`
 	Files   []string   `json:"files"`
 	Entries []EntryCfg `json:"entries"`
+	Models  []string   `json:"models,omitempty"` // optional model tags enabled for this group
 }
 
 type PropSpec struct {
@@ -167,6 +168,10 @@ func cmdCheck(args []string) int {
 		var files []string
 		for _, f := range g.Files {
 			files = append(files, filepath.Join(harnessDir(prop), f))
+		}
+		optModels = map[string]bool{}
+		for _, m := range g.Models {
+			optModels[m] = true
 		}
 		w, tp, err := loadWorld(g.Pkg, files)
 		if err != nil {
